@@ -181,8 +181,10 @@ class Assembler:
 
     def _autoconst(self, body, src, qn, log):
         done = set()
+        adds = []
+        scan = body
         for _ in range(4):
-            m = mask(body)
+            m = mask(scan)
             added = False
             for name in sorted(set(re.findall(r'(?<![\w:!])([A-Z][A-Z0-9_]{2,})\b(?!\s*(?:!|::))', m))):
                 if name in done:
@@ -202,12 +204,23 @@ class Assembler:
                 mm = re.match(r'(?:pub(?:\s*\([^)]*\))?\s+)?const\s+' + name + r'\s*:\s*(.*?)\s*=\s*(.*);\s*$', txt, re.S)
                 if not mm:
                     continue
-                o = body.index('{')
-                body = body[:o + 1] + '\n\tlet %s: %s = %s;' % (name, mm.group(1), mm.group(2)) + body[o + 1:]
+                adds.append((name, mm.group(1), mm.group(2)))
+                scan = scan + '\n' + mm.group(2)   # a constant defined in terms of another one pulls that one in too
                 log.append(dict(rule='AUTOCONST', before=txt[:160], after='let %s: %s = %s; (at the top of %s)' % (name, mm.group(1), mm.group(2)[:80], qn)))
                 added = True
             if not added:
                 break
+        # bind in dependency order: a constant after the constants its definition mentions
+        ordered, names = [], set(a[0] for a in adds)
+        while adds:
+            ready = [a for a in adds if not any(re.search(r'\b%s\b' % n, a[2]) for n in names if n != a[0] and n not in [o_[0] for o_ in ordered])]
+            if not ready:
+                ready = adds[:1]
+            ordered.append(ready[0])
+            adds.remove(ready[0])
+        if ordered:
+            o = body.index('{')
+            body = body[:o + 1] + ''.join('\n\tlet %s: %s = %s;' % a for a in ordered) + body[o + 1:]
         return body
 
     def _index_proof_fns(self, text):
